@@ -37,6 +37,48 @@ def run(chk: Check, proj: Project) -> None:
     s4(chk, proj)
     s5_accessors(chk, proj, ["STATIC_FILES_ALLOWED", "STATIC_FILES_FORBIDDEN", "DIRS", "APP_DIRS"])
     s6_raw_settings_forms(chk, proj)
+    s7_same_path_kind(chk, proj)
+
+
+def s7_same_path_kind(chk: Check, proj: Project) -> None:
+    chk.rule("S7", "both exposure routes judge the SAME string: the allow/forbid predicate receives the path relative to the component directory in list() and in find_location() (never the absolute path, whose directory part can itself match or defeat an anchored pattern)")
+    m = proj.mod("finders")
+    n = 0
+    for q in ("ComponentsFileSystemFinder.list", "ComponentsFileSystemFinder.find_location"):
+        f = m.func(q)
+        chk.analysed(f"{m.name}:{q}")
+        for c in [c for c in calls(f) if last_attr(c.func) == "_is_path_valid" and c.args]:
+            n += 1
+            a = c.args[0]
+            kind = "unknown"
+            if isinstance(a, ast.Name):
+                # nearest earlier definition of the variable in source order
+                ds = [(st, v) for st, v in assignments(f, a.id) if st.lineno < c.lineno]
+                loopvar = any(isinstance(x, ast.For) and any(isinstance(t, ast.Name) and t.id == a.id for t in ast.walk(x.target)) and any(y is c for y in ast.walk(x))
+                              and isinstance(x.iter, ast.Call) and last_attr(x.iter.func) == "get_files" for x in ast.walk(f))
+                ds = [(st, v) for st, v in ds if v is not None and not isinstance(st, ast.For)]
+                if loopvar and not ds:
+                    kind = "relative"  # element of get_files(storage, ...): relative to the storage root
+                elif ds:
+                    v = sorted(ds, key=lambda t: t[0].lineno)[-1][1]
+                    if v is not None and any(isinstance(x, ast.Call) and last_attr(x.func) in ("safe_join", "join", "abspath", "realpath") for x in ast.walk(v)):
+                        kind = "absolute"
+                    elif v is not None and (any(isinstance(x, ast.Call) and last_attr(x.func) in ("removeprefix", "relpath") for x in ast.walk(v)) or isinstance(v, ast.Subscript)):
+                        kind = "relative"
+                    if v is not None and any(isinstance(x, ast.Call) and last_attr(x.func) == "relpath" for x in ast.walk(v)):
+                        kind = "relative"
+                elif a.id in params(f):
+                    kind = "relative"  # the requested static path as given by the caller
+            elif any(isinstance(x, ast.Call) and last_attr(x.func) in ("safe_join", "join", "abspath") for x in ast.walk(a)):
+                kind = "absolute"
+            key = f"finders:{q}:predicate-sees-relative-path"
+            if kind == "relative":
+                chk.holds("S7", key, m.loc(c), f"`{short(c)}` receives the path relative to the component directory")
+            elif kind == "absolute":
+                chk.violated("S7", key, m.loc(c), f"`{short(c)}` receives the ABSOLUTE path (result of safe_join) while list() judges the relative one: with forbidden `^private/` collectstatic hides private/app.js but find('private/app.js') serves it; a component directory whose own path matches an allowed pattern exposes every file in it")
+            else:
+                chk.undecided("S7", key, m.loc(c), f"kind of path passed in `{short(c)}` not determined")
+    chk.floor("S7", n, 2)
 
 
 def s6_raw_settings_forms(chk: Check, proj: Project) -> None:
@@ -150,15 +192,31 @@ def s2(chk: Check, proj: Project) -> None:
         chk.ob("S2", "finders:find_location:safe_join", m.loc(r), ok_join, f"the returned `{v}` is the result of safe_join({params(f)[1]}, ...)" if ok_join else
                f"the returned `{v}` is not (last) assigned from safe_join(root, ...): a request path with `..` can resolve to a file outside the component directory (a string-prefix check has no separator boundary)")
         at = cond_atoms(r)
-        ok_valid = any(pol and f"self._is_path_valid({v})" in t for t, pol in at)
+        # the tested string is the joined (normalised) path itself or computed from it (e.g. relpath(<joined>, root))
+        def from_joined(name: str) -> bool:
+            if name == v:
+                return True
+            return any(val is not None and any(isinstance(x, ast.Name) and x.id == v for x in ast.walk(val)) for _s, val in assignments(f, name))
+
+        tested = []
+        for t, pol in at:
+            if pol and "self._is_path_valid(" in t:
+                try:
+                    e = ast.parse(t, mode="eval").body
+                except SyntaxError:
+                    continue
+                for c in ast.walk(e):
+                    if isinstance(c, ast.Call) and last_attr(c.func) == "_is_path_valid" and c.args and isinstance(c.args[0], ast.Name):
+                        tested.append(c.args[0].id)
+        ok_valid = bool(tested)
         # ... and the validity test looks at the JOINED (normalised) path: it is evaluated after the safe_join assignment
         from ..cfg import CFG
 
         cfg = CFG(f)
         dom = cfg.dominators()
-        tests = [n for n in cfg.nodes if n.kind == "test" and n.ast is not None and f"self._is_path_valid({v})" in norm(n.ast)]
+        tests = [n for n in cfg.nodes if n.kind == "test" and n.ast is not None and "self._is_path_valid(" in norm(n.ast)]
         joins = [n for a in sj for n in cfg.nodes_of(a[0])]
-        after_join = bool(tests) and bool(joins) and all(any(cfg.dominates(j, t, dom) for j in joins) for t in tests)
+        after_join = bool(tests) and bool(joins) and all(any(cfg.dominates(j, t, dom) for j in joins) for t in tests) and all(from_joined(x) for x in tested)
         chk.ob("S2", "finders:find_location:filtered", m.loc(r), ok_valid and after_join,
                "returned only if _is_path_valid(<joined path>)" if ok_valid and after_join else
                ("a path is returned without passing _is_path_valid" if not ok_valid else
